@@ -266,6 +266,57 @@ pub fn run(thorough: bool) -> Report {
             }
         }
     }
+    // (8) seeding is seeding whatever the interpreter is doing: while a program awaits a reply,
+    // between two statements of a running line, right after a break
+    {
+        for seed in [5u64, 1 << 40] {
+            for (name, lines, steps) in [
+                ("while awaiting input", vec!["10 INPUT A: PRINT RND(1)"], vec!["RUN", "cont", "seed", "reply"]),
+                ("between two statements", vec!["10 X = 1: PRINT RND(1)"], vec!["RUN", "cont", "seed"]),
+                ("between two draws", vec!["10 PRINT RND(1);: PRINT RND(1)"], vec!["RUN", "cont", "seed"]),
+                ("at a STOP", vec!["10 STOP: PRINT RND(1)"], vec!["RUN", "cont", "seed", "CONT"]),
+            ] {
+                let mut s = Sess::new();
+                let _ = s.apply(&Ev::Randomize(99));
+                let mut hist = vec![Ev::Randomize(99)];
+                for l in &lines {
+                    let e = Ev::Line(l.to_string());
+                    let _ = s.apply(&e);
+                    hist.push(e);
+                }
+                for st in steps {
+                    let e = match st {
+                        "seed" => Ev::Randomize(seed),
+                        "reply" => Ev::Input("1".into()),
+                        "cont" => Ev::Cont,
+                        other => Ev::Line(other.to_string()),
+                    };
+                    if matches!(e, Ev::Cont) && s.state() != abasic_core::InterpreterState::Running {
+                        continue;
+                    }
+                    if matches!(e, Ev::Randomize(_)) {
+                        s.recs.clear();
+                    }
+                    let _ = s.apply(&e);
+                    hist.push(e);
+                }
+                let mut n = 0;
+                while s.state() == abasic_core::InterpreterState::Running && n < 10 {
+                    let _ = s.apply(&Ev::Cont);
+                    hist.push(Ev::Cont);
+                    n += 1;
+                }
+                let want = format!("{}\n", lcg_value(lcg_next(seed % LCG_M)));
+                if s.printed() != want {
+                    rep.add(Violation {
+                        signature: format!("seeding {} is not honoured", name),
+                        detail: format!("seed {} given {}: the next RND(1) printed {:?}, the documented sequence from that seed starts with {:?}", seed, name, s.printed(), want),
+                        case: case_history(&hist, false, false),
+                    });
+                }
+            }
+        }
+    }
     let disp_seeds: [u64; 5] = [0, 1, (1 << 33) - 1, 1 << 44, u64::MAX];
     let maxlen = 6;
     let mut seqs: Vec<Vec<usize>> = vec![];
